@@ -796,6 +796,12 @@ func (state *RuntimeState) getUsernameIfKeymasterSigned(VerifiedChains [][]*x509
 		if len(chain) < 2 {
 			continue
 		}
+		// Certificates issued by the role requesting CA (which shares the
+		// signer key) are IP restricted automation certificates: they are
+		// only valid through the IP restricted path, never as user certs.
+		if bytes.Equal(chain[1].Raw, state.selfRoleCaCertDer) {
+			continue
+		}
 		username := chain[0].Subject.CommonName
 		//keymaster certs as signed directly
 		certSignerPKFingerprint, err := getKeyFingerprint(chain[1].PublicKey)
